@@ -28,6 +28,7 @@ From Coq Require Import ZArith List Bool.
 From Coq Require Import QArith.
 From TM Require Import Sched.Vec Sched.Types Sched.Queue Sched.Tree Sched.Cycle Sched.Events.
 From TM Require Import Master.Publish Master.PublishP Master.Restore Master.RestoreP Master.RestoreSched Master.RestoreSchedP.
+From TM Require Import Base.ShapeCanon.
 Import ListNotations.
 Open Scope Z_scope.
 
@@ -116,3 +117,10 @@ Example C11_nonvacuous :
   restore_action (Some 100) true ex_reb = RPutFresh None /\
   restore_server 9 None true [ex_once] = ([], [WDel 9 4; WFinished 4; WUnsched 4]).
 Proof. vm_compute. repeat split. Qed.
+
+(** the functions named by this property's anchors still have the statement skeleton the model was written from
+    (re-extracted from the Python AST on every run, harness/tables_shape.py + harness/shape_pins.json; kept last so that
+    a difference does not stop the theorems above from being checked) *)
+Theorem C11_source_shape : shapes_ok_C11 = true.
+Proof. vm_compute. reflexivity. Qed.
+Print Assumptions C11_source_shape.
